@@ -364,6 +364,53 @@ func runC16(c *Check, w *World) {
 		}
 		return t.Op == "extract" && t.Sym == "0" && t.Args[0].Op == "call" && strings.HasPrefix(t.Args[0].Sym, "strconv.") && t.Args[0].Args[0].String() == get(key)
 	}
+	// a number written in the URL is used whenever it is there: the store of the parsed value is conditioned only on
+	// the parameter being present and on its parse having succeeded (beyond what holds on every successful parse) —
+	// not, say, on the spelling of the type
+	baseline := map[string]bool{}
+	firstRet := true
+	for _, r := range Returns(parse) {
+		if len(r.Results) < 2 || !isNilConst(r.Results[len(r.Results)-1]) {
+			continue
+		}
+		cur := map[string]bool{}
+		for _, cd := range CondsAt(r.Block()) {
+			cur[fmt.Sprintf("%v|%s", cd.Pos, tb.Of(cd.V).String())] = true
+		}
+		if firstRet {
+			baseline, firstRet = cur, false
+		} else {
+			for k := range baseline {
+				if !cur[k] {
+					delete(baseline, k)
+				}
+			}
+		}
+	}
+	for _, fk := range [][2]string{{"Digits", "digits"}, {"Period", "period"}} {
+		for _, st := range ps[fk[0]] {
+			if !isParse(tb.Of(st.Val), fk[1]) {
+				continue
+			}
+			extra := ""
+			for _, cd := range CondsAt(st.Block()) {
+				ct := tb.Of(cd.V)
+				if baseline[fmt.Sprintf("%v|%s", cd.Pos, ct.String())] {
+					continue
+				}
+				cs := ct.String()
+				switch {
+				case ct.Op == "bin" && (ct.Sym == "!=" || ct.Sym == "==") && strings.Contains(cs, get(fk[1])) && strings.Contains(cs, `const("")`) && !strings.Contains(cs, "strconv."):
+					// presence of the parameter
+				case strings.Contains(cs, "extract(1; call(strconv.") && strings.Contains(cs, get(fk[1])):
+					// success of its parse
+				default:
+					extra = cs
+				}
+			}
+			c.Decide(extra == "", "R16.5", pfn, "parsed-when-present:"+fk[0], "the "+fk[1]+" written in the URL is used whenever it is present and well-formed", "the parsed "+fk[1]+" is used only under the extra condition "+clip(extra, 160)+": a URL that carries the parameter can be parsed with the default instead (or with an unparsable value accepted)", w.InstrPos(st))
+		}
+	}
 	expectField("Digits", func(t *Term) bool { return (t.IsConst() && t.Sym == "6") || isParse(t, "digits") }, "6 by default, else the number parsed from query digits")
 	expectField("Period", func(t *Term) bool { return (t.IsConst() && t.Sym == "30") || isParse(t, "period") }, "30 by default, else the number parsed from query period")
 	// algorithm names: what Algorithm.String() yields for each hash value (a name table looked up by the receiver,
